@@ -93,6 +93,21 @@ def who_may_allocate(prog, res):
              ("ZSTD_initStaticCCtx",) for u in users)
     res.check(ok and users, "T5e.default-allocator", "ZSTD_defaultCMem-users", "lib", "only convenience constructors: %s" % ", ".join(users)[:200],
               "ZSTD_defaultCMem is used by an _advanced/_internal function: %s" % [u for u in users if u.endswith(("_advanced", "_internal"))])
+    # ... and never by a function that is handed an object which records its own allocator: its allocations belong to that one
+    typedefs = {"ZSTD_CCtx": "ZSTD_CCtx_s", "ZSTD_CStream": "ZSTD_CCtx_s", "ZSTD_DCtx": "ZSTD_DCtx_s", "ZSTD_DStream": "ZSTD_DCtx_s", "ZSTDMT_CCtx": "ZSTDMT_CCtx_s",
+                "ZSTD_CDict": "ZSTD_CDict_s", "ZSTD_DDict": "ZSTD_DDict_s", "POOL_ctx": "POOL_ctx_s", "ZSTD_CCtx_params": "ZSTD_CCtx_params_s"}
+    has_alloc = {n for n, r in prog.records.items() if any(x["n"] in ("customMem", "cMem") for x in r.get("fields", []))}
+    bad = []
+    for f in prog.all_functions():
+        if not f.file.startswith(LIB) or f.name not in users:
+            continue
+        for prm in f.params:
+            t = (prm.get("t") or "").replace("const", "").replace("struct", "").replace("*", "").strip()
+            if typedefs.get(t, t) in has_alloc:
+                bad.append("%s(%s %s)" % (f.name, t, prm.get("n")))
+    res.check(not bad and len(has_alloc) >= 5, "T5e.default-allocator", "not-next-to-an-object-with-an-allocator", "lib",
+              "no user of ZSTD_defaultCMem receives an object that records an allocator (%d such record types)" % len(has_alloc),
+              "%s uses ZSTD_defaultCMem although it is handed an object that records the caller's allocator: that allocation by-passes it" % ", ".join(bad))
 
 
 def allocator_pair_validated(prog, res):
@@ -296,6 +311,26 @@ def allocator_fixed_at_construction(prog, res):
     res.need(R, 8)
 
 
+def serial_state_allocator(prog, res):
+    """T5e: ZSTDMT_serialState_reset allocates the LDM tables of a multi-threaded context with the customMem found in the
+    parameters it is handed.  The requested parameters never carry the caller's allocator: every caller stores the MT
+    context's own allocator (mtctx->cMem) there on every path to the call."""
+    R = "T5e.serial-state-allocator"
+    g = prog.fn("ZSTDMT_serialState_reset")
+    from_params = any(y.get("k") == "mem" and y.get("f") == "customMem" for n, ds in g.local_defs().items() for d in ds if d is not None for y in walk(d))
+    res.check(from_params, R, "reset:allocator-from-params", g.loc, "the allocator is read from params.customMem", "ZSTDMT_serialState_reset no longer takes its allocator from params.customMem (re-read)")
+    n = 0
+    for f in prog.callers().get("ZSTDMT_serialState_reset", []):
+        calls = f.call_roots("ZSTDMT_serialState_reset")
+        st = f.find_roots(lambda x: x.get("k") == "asg" and x.get("op") == "=" and strip_casts(x["lhs"]).get("k") == "mem" and strip_casts(x["lhs"]).get("f") == "customMem"
+                          and any(y.get("k") == "mem" and y.get("f") == "cMem" for y in f.walk_deep(x["rhs"])))
+        n += 1
+        res.check(bool(st) and f.must_pass(via_roots=st, targets=calls), R, f.name, f.loc, "params.customMem = mtctx->cMem on every path to the call",
+                  "%s resets the serial state with whatever customMem the requested parameters hold (nothing ever sets it): with nbWorkers >= 1 and long distance "
+                  "matching the LDM hash and bucket tables come from plain malloc() although the context has a custom allocator" % f.name)
+    res.need(R, 2)
+
+
 def run(tier):
     res = Result("C13", tier)
     tus, info = extract(["common", "compress", "decompress", "dictBuilder", "seekable", "legacy"])
@@ -324,6 +359,7 @@ def run(tier):
     legacy_stale_sizes(prog, res)
     context_copy_keeps_ownership(prog, res)
     allocator_fixed_at_construction(prog, res)
+    serial_state_allocator(prog, res)
     # the serial state's tables are freed with serialState->params.customMem: it must be recorded
     # before the tables are (re)allocated, else a failure in between frees with the wrong allocator
     sr = prog.fn("ZSTDMT_serialState_reset")
